@@ -51,7 +51,6 @@ CONSTANTS XKinds,    \* families explored in this run
           PThin,     \* keep one polygon in PThin (deterministic thinning, like Thin)
           CThin      \* the same for the pairs of ideal end points of the chord family
 
-Iso == INSTANCE HypIso WITH MaxLen <- 1, g <- <<>>, kind <- "exact", len <- 0, last <- <<>>
 
 (***************************************************************************)
 (* integer square roots without a linear search                            *)
@@ -72,7 +71,6 @@ SmallV(v, b) == \A i \in 1..Len(v) : Abs(v[i]) <= b
 XAtoms == {a \in Iso!ExactAtoms : \/ a.k = "refl" /\ a.v \in {Iso!Pad(<<0, 1, 1>>), Iso!Pad(<<1, 2>>)}
                                   \/ a.k = "rot" /\ a.a = 3
                                   \/ a.k = "lox" /\ a.p = 2 /\ a.q = 1}
-Img(a, v) == Iso!Act(Iso!AtomVal(a), v)
 
 \* --- family "pair": two points of one horosphere
 PairCoefs == {<<<<1, 0>>, <<0, 1>>>>, <<<<2, 1>>, <<1, 3>>>>, <<<<1, 1>>, <<0, 1>>>>}
